@@ -185,3 +185,11 @@ SUBS = [
     Sub("norm", check_norm, norm_case(), nontrivial=nontrivial, quick=800, thorough=5000),
     Sub("inplace-write", check_inplace_write, norm_case(), nontrivial=nontrivial, quick=300, thorough=2000),
 ]
+
+
+# objects with a history (reads that may fill caches, in-place writes): observables equal those of a fresh object
+from pbt import aged as _aged  # noqa: E402
+
+SUBS.append(_aged.sub("C15", quick=120))
+ASSUMPTIONS = list(ASSUMPTIONS) + ["aged sub-property: library results are a function of the public primary state "
+                                   "(corners, n, names, units, bc, subregions, array, validity, labels, mapping, unit)"]
